@@ -255,7 +255,14 @@ def finish(ctx, mods):
 # ------------------------------------------------------------------------- generator
 
 def _xs(rng, n):
-    pat = int(rng.integers(0, 4))
+    pat = int(rng.integers(0, 5))
+    if pat == 4:
+        # large cache sizes (bytes / blocks): integers far above 2**24, still exactly representable
+        unit = float(2 ** int(rng.integers(8, 25))) if rng.random() < 0.6 else float(int(10.0 ** rng.uniform(2, 7)))
+        x = np.cumsum(rng.integers(1, 20, n)).astype(float) * unit
+        if rng.random() < 0.5:
+            x = x + float(2 ** int(rng.integers(24, 34)))
+        return x, pat
     if pat == 0:
         x = np.arange(1, n + 1, dtype=float)
     elif pat == 1:
@@ -315,6 +322,10 @@ def make_case(rng, nmin, nmax):
     y = _ys(rng, n, x, cls)
     pts = np.ascontiguousarray(np.column_stack((x, y)))
     dx, dy, dz = (float(10.0 ** rng.uniform(-2.3, 0.0)) for _ in range(3))
+    if rng.random() < 0.3:
+        # round parameter values: band widths that coincide with the spacing of y values on a decimal grid
+        grid = [0.05, 0.1, 0.2, 0.25, 0.5]
+        dx, dy, dz = (float(grid[int(rng.integers(0, 5))]) if rng.random() < 0.7 else v for v in (dx, dy, dz))
     x_max = None
     if rng.random() < 0.3:
         hi = int(4 * x[-1]) + 2
